@@ -1,7 +1,7 @@
 SPECIFICATION Spec
 CONSTANTS
   Pats = {"name:b.lua", "dir:vendor", "ext:luau", "anch:a.lua", "!name:v.lua", "dir:deep", "name:v.lua"}
-  ArgSets = {"dot", "src", "a", "v", "w", "notes", "hidden", "dot+a", "a+a", "src+b", "src+vendor", "src+notes", "notes+src", "dot+notes", "notes+dot"}
+  ArgSets = {"dot", "src", "a", "v", "w", "notes", "hidden", "dot+a", "a+a", "src+b", "src+vendor", "src+notes", "notes+src", "dot+notes", "notes+dot", "a+upa", "dot+upa", "srca+upa", "upa+srca"}
   MaxPats = 2
   IgNames = {"stylua", "ignore"}
   GlobSets = {"none", "lua", "luau", "txt", "lua-b", "-b+lua", "-vendor", "lua-vendor", "under-src"}
